@@ -15,6 +15,7 @@ import (
 var ops = []string{"count", "sum", "min", "max", "avg", "last", "len"}
 
 type logLine struct {
+	key        string // the group key the line belongs to
 	g          byte
 	hasX, hasY bool
 	x, y       byte
@@ -45,14 +46,35 @@ func evaluate(q *mapr.Query, queryStr string, servers [][][]string) map[string]*
 // VerifC05aAlgebra: t generickv lines "g=<G>[|x=<D>][|y=<D>]" split over two
 // partitions; wiring 0: two servers, wiring 1: one server with two
 // serialisation intervals; the distributed result must equal the central one.
+// VerifC05dReference: the central evaluation of the query (real server aggregate ->
+// Serialize -> client Aggregate -> Merge chain, all lines at once) against an
+// independent evaluation by hand: where-filter, group keys (one or two
+// group-by fields, possibly absent), count/sum/min/max and sample counts.
+func VerifC05dReference(t, op, where int) {
+	c05Run(t, op, where, 0, true)
+}
+
 func VerifC05aAlgebra(t, op, where, wiring int) {
+	c05Run(t, op, where, wiring, false)
+}
+
+func c05Run(t, op, where, wiring int, refOnly bool) {
+	// where: 0 none, 1 "where x > 3", 2 none but grouped by two fields (g,h), h possibly absent
+	twoKeys := where == 2
+	if twoKeys {
+		where = 0
+	}
 	dlog.VerifInstall(source.Client)
 	sel := ops[op] + "(x)"
 	queryStr := "select " + sel + ",count(y) from T "
 	if where == 1 {
 		queryStr += "where x > 3 "
 	}
-	queryStr += "group by g logformat generickv"
+	if twoKeys {
+		queryStr += "group by g,h logformat generickv"
+	} else {
+		queryStr += "group by g logformat generickv"
+	}
 	q, err := mapr.NewQuery(queryStr)
 	verifrt.Assert(err == nil, "query rejected")
 
@@ -67,6 +89,28 @@ func VerifC05aAlgebra(t, op, where, wiring int) {
 		l.y = verifrt.ByteIn("y", "0123456789z")
 		l.part = verifrt.Bool("part")
 		l.text = "g=" + string([]byte{l.g})
+		l.key = string([]byte{l.g})
+		if twoKeys {
+			// the group key is "<g>,<h>"; a line may lack g or h (its slot stays empty)
+			hasG := verifrt.Bool("hasg")
+			hasH := verifrt.Bool("hash")
+			h := verifrt.ByteIn("h", "ab")
+			l.text, l.key = "", ","
+			if hasG {
+				l.text = "g=" + string([]byte{l.g})
+				l.key = string([]byte{l.g}) + ","
+			}
+			if hasH {
+				if l.text != "" {
+					l.text += "|"
+				}
+				l.text += "h=" + string([]byte{h})
+				l.key += string([]byte{h})
+			}
+			if l.text == "" {
+				l.text = "z=0"
+			}
+		}
 		if l.hasX {
 			l.text += "|x=" + string([]byte{l.x})
 		}
@@ -81,6 +125,37 @@ func VerifC05aAlgebra(t, op, where, wiring int) {
 		}
 	}
 	central := evaluate(q, queryStr, [][][]string{{all}})
+	if refOnly {
+	// independent reference: the query evaluated by hand over all lines
+		ref := reference(lines, where == 1, op)
+		verifrt.Assert(len(central) == len(ref), "central evaluation has different groups than the query denotes")
+		for key, r := range ref {
+			cs, ok := central[key]
+			verifrt.Assert(ok, "a group the query denotes is missing from the result")
+			if !ok {
+				continue
+			}
+			verifrt.Assert(cs.Samples == r.samples, "sample count of a group differs from the lines that belong to it")
+			if cy, ok := cs.FValues["count(y)"]; ok {
+				verifrt.Assert(cy == float64(r.cntY), "count(y) differs from the number of lines carrying y")
+			} else {
+				verifrt.Assert(r.cntY == 0, "count(y) missing")
+			}
+			cx, okx := cs.FValues[sel]
+			switch op {
+			case 0:
+				verifrt.Assert((okx && cx == float64(r.cntX)) || (!okx && r.cntX == 0), "count(x) differs from the number of lines carrying x")
+			case 1, 4:
+				verifrt.Assert((okx && cx == r.sum) || (!okx && !r.hasNum), "sum/avg numerator differs from the sum of the numeric x values")
+			case 2:
+				verifrt.Assert((okx && cx == r.min) || (!okx && !r.hasNum), "min(x) differs from the smallest numeric x value")
+			case 3:
+				verifrt.Assert((okx && cx == r.max) || (!okx && !r.hasNum), "max(x) differs from the largest numeric x value")
+			}
+		}
+		verifrt.Reach("reference-checked")
+		return
+	}
 	var dist map[string]*mapr.AggregateSet
 	if wiring == 0 {
 		dist = evaluate(q, queryStr, [][][]string{{p0}, {p1}})
@@ -162,7 +237,7 @@ func partialLacks(lines []logLine, key string, op int, where bool) bool {
 		has, carries := false, false
 		for i := range lines {
 			l := &lines[i]
-			if l.part != part || string([]byte{l.g}) != key || !selected(l, where) {
+			if l.part != part || l.key != key || !selected(l, where) {
 				continue
 			}
 			if !(l.hasX || l.hasY) {
@@ -184,7 +259,7 @@ func partialLacks(lines []logLine, key string, op int, where bool) bool {
 		exists, carries := false, false
 		for i := range lines {
 			l := &lines[i]
-			if l.part != part || string([]byte{l.g}) != key || !selected(l, where) {
+			if l.part != part || l.key != key || !selected(l, where) {
 				continue
 			}
 			exists = true
@@ -204,10 +279,65 @@ func partialLacks(lines []logLine, key string, op int, where bool) bool {
 func carriers(lines []logLine, key string, where bool) (n int, val byte) {
 	for i := range lines {
 		l := &lines[i]
-		if string([]byte{l.g}) == key && selected(l, where) && l.hasX {
+		if l.key == key && selected(l, where) && l.hasX {
 			n++
 			val = l.x
 		}
 	}
 	return
+}
+
+type refGroup struct {
+	samples, cntX, cntY int
+	sum, min, max       float64
+	hasNum              bool
+}
+
+// reference evaluates the query by hand: where-filter, grouping, aggregation.
+func reference(lines []logLine, where bool, op int) map[string]*refGroup {
+	ref := map[string]*refGroup{}
+	for i := range lines {
+		l := &lines[i]
+		if !selected(l, where) {
+			continue
+		}
+		added := false
+		contributes := (l.hasX && (op == 0 || op == 5 || op == 6 || numeric(l.x))) || l.hasY
+		if !contributes {
+			continue // a line without any usable selected field adds nothing (and no empty group)
+		}
+		g, ok := ref[l.key]
+		if !ok {
+			g = &refGroup{}
+			ref[l.key] = g
+		}
+		if l.hasX {
+			g.cntX++
+			if numeric(l.x) {
+				v := float64(l.x - '0')
+				if !g.hasNum {
+					g.min, g.max, g.hasNum = v, v, true
+				} else {
+					if v < g.min {
+						g.min = v
+					}
+					if v > g.max {
+						g.max = v
+					}
+				}
+				g.sum += v
+			}
+		}
+		if l.hasX && (op == 0 || op == 5 || op == 6 || numeric(l.x)) {
+			added = true // the line contributes a value for the x column
+		}
+		if l.hasY {
+			g.cntY++
+			added = true
+		}
+		if added {
+			g.samples++
+		}
+	}
+	return ref
 }
